@@ -287,7 +287,9 @@ Token::firstCharacterOptions Token::analyzeFirstCharacter(RangeToken* const rang
             const XMLCh* str = getString();
             XMLInt32 ch = str[0];
 
-            if (RegxUtil::isHighSurrogate((XMLCh) ch)) {
+            if (RegxUtil::isHighSurrogate((XMLCh) ch)
+                && RegxUtil::isLowSurrogate(str[1])) {
+                ch = RegxUtil::composeFromSurrogate((XMLCh) ch, str[1]);
             }
 
             rangeTok->addRange(ch, ch);
